@@ -179,6 +179,17 @@ func isEncLenOf(v, num ssa.Value) bool {
 
 // blockSizeOf: v == len(T) + len(L) + int(L) for the numbers t and l.
 func blockSizeOf(v, t, l ssa.Value) bool {
+	// the size may come out of a helper that also has "not yet" returns (0, false, nil):
+	// the one non-constant value it returns is the size
+	var nonConst []ssa.Value
+	for _, rv := range core.ReturnedValues(core.Resolve(v)) {
+		if _, isC := core.ConstInt(rv); !isC {
+			nonConst = append(nonConst, rv)
+		}
+	}
+	if len(nonConst) == 1 {
+		v = nonConst[0]
+	}
 	as := addends(v)
 	if len(as) == 2 {
 		// equivalent form: position of the header reader after L + int(L)
@@ -225,6 +236,7 @@ func c11Forwarder(c *core.Ctx) {
 		return
 	}
 	pos := p.Pos(fn.Pos())
+	defer core.WithRoot(fn)()
 	// the Read call and the write cursor
 	var rd ssa.CallInstruction
 	core.InstrsDeep(fn, func(in ssa.Instruction) {
@@ -367,7 +379,7 @@ func c11Forwarder(c *core.Ctx) {
 			okWin = false
 			continue
 		}
-		sl, ok := unwrapBytes(cl.Call.Args[0]).(*ssa.Slice)
+		sl, ok := unwrapBytes(core.Resolve(unwrapBytes(cl.Call.Args[0]))).(*ssa.Slice)
 		if !ok || sl.Low == nil || sl.High == nil || core.Resolve(sl.Low) != ssa.Value(P) || !sameVal(sl.High, W2) || !sameVal(sl.X, buf) {
 			okWin = false
 		}
